@@ -1,6 +1,7 @@
 package main
 
 import (
+	"time"
 	"fmt"
 	"strings"
 
@@ -237,12 +238,21 @@ func runC10(args []string) error {
 		snaps := []string{x.Snapshot()}
 		trunc, truncFinal := -1, ""
 		for j, st := range c.Steps {
-			if st.K == "sendfailbatch" && trunc < 0 {
-				// the model is compared up to here: how many operations of the interrupted request are applied
-				// before the server notices the failure depends on goroutine timing
-				trunc, truncFinal = j, x.FinalCoq()
-			}
 			obs = append(obs, x.Step(st))
+			if st.K == "sendfailbatch" && trunc < 0 {
+				// the model is compared up to here, and then with each prefix of the interrupted request: how many of
+				// its operations are applied before the server notices the failure depends on goroutine timing.
+				// The state is read once it has settled.
+				trunc = j
+				for try := 0; try < 100; try++ {
+					a := x.FinalCoq()
+					time.Sleep(3 * time.Millisecond)
+					truncFinal = x.FinalCoq()
+					if a == truncFinal {
+						break
+					}
+				}
+			}
 			snaps = append(snaps, x.Snapshot())
 		}
 		res.Problem = oracleC10(c, obs, snaps)
@@ -272,7 +282,20 @@ func runC10(args []string) error {
 		if trunc < 0 {
 			final = x.FinalCoq()
 		}
-		res.Coq = fmt.Sprintf("mk_scase %v %s\n %s\n %s\n (%s)", c.NoFwd, drv.CoqNs(vr), drv.CoqList(hs), drv.CoqList(os), final)
+		alts := []string{}
+		if trunc >= 0 {
+			st := c.Steps[trunc]
+			gone := drv.SStep{K: "abort", S: st.S}.Coq(drv.SObs{})
+			for j := 0; j <= len(st.Ops); j++ {
+				if j == 0 {
+					alts = append(alts, drv.CoqList([]string{gone}))
+				} else {
+					alts = append(alts, drv.CoqList([]string{drv.SStep{K: "ops", S: st.S, Ops: st.Ops[:j]}.Coq(drv.SObs{}), gone}))
+				}
+			}
+			res.Stats["midbatch_cases"]++
+		}
+		res.Coq = fmt.Sprintf("mk_scase_alt (mk_scase %v %s\n %s\n %s\n (%s))\n %s", c.NoFwd, drv.CoqNs(vr), drv.CoqList(hs), drv.CoqList(os), final, drv.CoqList(alts))
 		x.Finish()
 		return res
 	}
@@ -314,7 +337,7 @@ func runC10(args []string) error {
 		if r.Coq != "" {
 			coq = append(coq, r.Coq)
 		} else {
-			coq = append(coq, "mk_scase false [] [] [] (mk_sfinal (state_obs (srib (srv_init false []))) [] None None)")
+			coq = append(coq, "mk_scase_alt (mk_scase false [] [] [] (mk_sfinal (state_obs (srib (srv_init false []))) [] None None)) []")
 		}
 		if r.NonTriv {
 			distinct[r.Key] = true
@@ -325,7 +348,7 @@ func runC10(args []string) error {
 	}
 	rep.Nontrivial = len(distinct)
 	req := "From Coq Require Import List NArith Bool.\nFrom GV.Base Require Import Op U128.\nFrom GV.Rib Require Import Model Run.\nFrom GV.Server Require Import Model Obs Inst.\nImport ListNotations.\nOpen Scope N_scope."
-	if err := drv.WriteCasesV(*f.Out, req, "scase", "smismatches", coq); err != nil {
+	if err := drv.WriteCasesV(*f.Out, req, "scase_alt", "samismatches", coq); err != nil {
 		return err
 	}
 	return drv.WriteJSON(*f.Out+"/impl.json", rep)
